@@ -2033,3 +2033,53 @@ Proof.
     { induction out0 as [|a l IHl]; [reflexivity|]. cbn [map filter fst]. rewrite Eij. exact IHl. }
     rewrite F. reflexivity.
 Qed.
+
+(* ------------------------------------------------------------------------------------- *)
+(* L. apply_evaluation_results on arbitrary result lists: uid matching, any order            *)
+(* ------------------------------------------------------------------------------------- *)
+Lemma truthy_pairs_valid : forall rs k r, In (k, r) (truthy_pairs rs) -> valid (r_fit r) = true /\ r_uid r = k.
+Proof.
+  intros rs k r H. unfold truthy_pairs in H. apply in_flat_map in H. destruct H as [x [_ H]].
+  destruct x as [e|]; [|destruct H]. destruct (valid (r_fit e)) eqn:Ev; [|destruct H].
+  destruct H as [H|[]]. inversion H; subst. auto.
+Qed.
+
+Theorem apply_results_spec : forall inds rs,
+  all_invalid inds -> NoDup (map fst (truthy_pairs rs)) ->
+  apply_evaluation_results inds rs = Ok (apply_spec inds rs).
+Proof.
+  intros inds rs Hinv ND. unfold apply_evaluation_results. rewrite (apply_loop_pure _ _ Hinv).
+  f_equal. unfold apply_pure, apply_spec. apply flat_map_ext. intros i.
+  unfold results_dict. rewrite dict_get_of_pairs.
+  rewrite (dict_get_perm _ (uid i) (rev (truthy_pairs rs)) (truthy_pairs rs)).
+  - destruct (dict_get (uid i) (truthy_pairs rs)) as [r|] eqn:E; [|reflexivity].
+    apply dict_get_In in E. apply truthy_pairs_valid in E. destruct E as [Ev _]. rewrite Ev. reflexivity.
+  - eapply Permutation_NoDup; [apply Permutation_map; apply Permutation_rev|exact ND].
+  - apply Permutation_sym, Permutation_rev.
+Qed.
+
+(* any order of the results - and of invalid, None, missing or foreign ones among them - gives
+   the same individuals with the same fitness, in the order of the individuals *)
+Theorem apply_results_order_independent : forall inds rs rs',
+  all_invalid inds -> NoDup (map fst (truthy_pairs rs)) -> Permutation rs rs' ->
+  apply_evaluation_results inds rs' = apply_evaluation_results inds rs.
+Proof.
+  intros inds rs rs' Hinv ND P.
+  assert (PP : Permutation (truthy_pairs rs) (truthy_pairs rs')).
+  { unfold truthy_pairs. apply Permutation_flat_map. exact P. }
+  assert (ND' : NoDup (map fst (truthy_pairs rs'))).
+  { eapply Permutation_NoDup; [apply Permutation_map; exact PP|exact ND]. }
+  rewrite (apply_results_spec inds rs Hinv ND), (apply_results_spec inds rs' Hinv ND').
+  f_equal. unfold apply_spec. apply flat_map_ext. intros i.
+  rewrite (dict_get_perm _ (uid i) _ _ ND PP). reflexivity.
+Qed.
+
+Theorem apply_in_scope_iff : forall inds rs,
+  apply_in_scope inds rs = true <->
+  NoDup (map uid inds) /\ all_invalid inds /\ NoDup (map fst (truthy_pairs rs)).
+Proof.
+  intros. unfold apply_in_scope, all_invalid. rewrite !andb_true_iff, !nodup_b_iff, forallb_forall.
+  split.
+  - intros [[H1 H2] H3]. repeat split; auto. intros i Hi. apply negb_true_iff. auto.
+  - intros [H1 [H2 H3]]. repeat split; auto. intros i Hi. apply negb_true_iff. auto.
+Qed.
